@@ -4,7 +4,9 @@ CONSTANTS
   MaxT = 2
   MaxOps = 6
   MaxRes = 2
+  Confs <- MCConfs
 INVARIANT SingleTracker
+INVARIANT ImportsShareTracker
 INVARIANT OneTrackerUnlessKilled
 INVARIANT SweepOnlyAfterLast
 INVARIANT NothingOutlives
